@@ -129,8 +129,42 @@ def replay_l181(cfg, m):
     except Exception as e:
         return True, 'parse raised %r' % (e,)
     bad = (g.payload_length != f.payload_length or g.flags.opcode != f.flags.opcode or g.flags.mask != f.flags.mask
-           or g.flags.fin != f.flags.fin or len(buf.buf) != n or (f.flags.mask and g.masking_key != f.masking_key))
-    return bad, 'plen=%d parsed=%d left=%d' % (f.payload_length, g.payload_length, len(buf.buf))
+           or g.flags.fin != f.flags.fin or g.flags.rsv1 != f.flags.rsv1 or g.flags.rsv2 != f.flags.rsv2 or g.flags.rsv3 != f.flags.rsv3
+           or len(buf.buf) != n or (f.flags.mask and g.masking_key != f.masking_key))
+    return bad, 'plen=%d parsed=%d left=%d flags sent=%s parsed=%s' % (
+        f.payload_length, g.payload_length, len(buf.buf), (f.flags.fin, f.flags.rsv1, f.flags.rsv2, f.flags.rsv3, f.flags.mask),
+        (g.flags.fin, g.flags.rsv1, g.flags.rsv2, g.flags.rsv3, g.flags.mask))
+
+
+def replay_l184(cfg, m):
+    """writer and constructors on the real package: writeFrame(f) for the model's frame with a concrete payload of the
+    declared length (capped), and the constructors on a message of the model's length"""
+    c = real('mpgameserver.http_server')
+    opi = [v for k, v in m.items() if k.startswith('opcode')][0]
+    f = mk_real_frame(c, m, opi)
+    n = min(f.payload_length, 70000)
+    f.payload_length = n
+    f.payload = bytes(n)
+
+    class S:
+        out = b''
+
+        def sendall(self, data):
+            self.out += data
+    s = S()
+    try:
+        c.writeFrameFactory(s)(f)
+    except Exception as e:
+        return True, 'writeFrame raised %r' % (e,)
+    if s.out != real_rfc(f, OPVALS[opi]) + f.payload:
+        return True, 'writeFrame wrote %s..., expected %s...' % (s.out[:16].hex(), (real_rfc(f, OPVALS[opi]) + f.payload)[:16].hex())
+    k = min(int(m.get('msg_len', 0)), 70000)
+    bads = []
+    for name, op in (('Binary', c.WebSocketOpCode.Binary), ('Ping', c.WebSocketOpCode.Ping), ('Pong', c.WebSocketOpCode.Pong)):
+        g = getattr(c.WebSocketFrame, name)(bytes(k))
+        if g.payload_length != k or g.flags.fin != 1 or g.flags.opcode != op or g.payload != bytes(k):
+            bads.append('%s: fin=%r opcode=%r length=%r' % (name, g.flags.fin, g.flags.opcode, g.payload_length))
+    return bool(bads), '; '.join(bads) or 'writer and constructors ok'
 
 
 R.add('L18.1', l181, [{}], replay=replay_l181,
@@ -412,12 +446,13 @@ def l184():
     check(s.out == rfc_header(f, opi) + payload, 'writeFrame emits header ++ data header ++ payload')
     # the library's own constructors declare the payload length they carry
     msg, ml = rope.blob('msg', 0, 200000)
-    for ctor in (Frame.Binary, Frame.Ping, Frame.Pong):
+    for ctor, op in ((Frame.Binary, Op.Binary), (Frame.Ping, Op.Ping), (Frame.Pong, Op.Pong)):
         g = ctor(msg)
         check(And(g.payload_length == ml, g.flags.fin == 1), 'constructor sets fin and the payload length')
+        check(g.flags.opcode == op and g.payload is msg, 'constructor sets its opcode and carries the message')
 
 
-R.add('L18.4', l184, [{}], replay=replay_l181, desc='writeFrame output; constructors',
+R.add('L18.4', l184, [{}], replay=replay_l184, desc='writeFrame output; constructors',
       expect=['writeFrame emits header ++ data header ++ payload'])
 
 
